@@ -57,6 +57,25 @@ def gen_history(rng):
                 s["options"] = rng.choice([None, {}, {"direction": s["options"].get("direction", "right")}])
         specs.append(s)
         backends.append(rng.choice(["svg", "tikz"]))
+    if nt >= 2 and rng.random() < 0.15:
+        # two default-scale timelines whose spans select neighbouring rows of the tick table's year end: decades first, a few
+        # years afterwards (whatever the first one leaves in shared tables shows in the second)
+        import datetime as dt
+
+        def dated(k, years):
+            s0 = TL.gen_spec(rng, scale_kind="default", n=rng.choice([3, 5, 8]))
+            y0 = rng.randrange(1950, 2000)
+            n0 = len(s0["data"])
+            for i, d in enumerate(s0["data"]):
+                d["time"] = dt.date(y0, 1, 1) + dt.timedelta(days=int(365.25 * years * i / max(1, n0 - 1)) + rng.randrange(0, 20))
+                d.pop("when", None)
+            o = s0["options"]
+            for key in ("scale", "domain", "timeFn"):
+                o.pop(key, None)
+            specs[k] = s0
+
+        dated(0, rng.choice([25, 40, 80, 150]))
+        dated(1, rng.choice([5, 6, 7, 9]))
     # some timelines are given the very data objects of an earlier one (same values, own options: another direction/back-end)
     share = {}
     twins = []
